@@ -60,7 +60,20 @@ def cases(draw):
         sess['ext_nh'] = True
         if rec['safi'] == 2:
             rec['nexthop'] = '10.9.8.7'
-    return {'route': rec, 'session': sess}
+    case = {'route': rec, 'session': sess}
+    if draw(st.integers(0, 2)) == 0:
+        # the same parsed route (one object, as one API line puts it into several Adj-RIB-Out) is then sent on a second
+        # session of the other kind: what the first session was sent must not be what the second one gets
+        other = dict(sess)
+        if sess['local_as'] == sess['peer_as']:
+            other['peer_as'] = 64999 if sess['local_as'] != 64999 else 64998
+        else:
+            other['peer_as'] = sess['local_as']
+            if other['peer_as'] > 65535:
+                other['peer_asn4'] = True
+        other['peer_asn4'] = other['peer_asn4'] if draw(st.booleans()) else sess['peer_asn4'] or other['peer_as'] > 65535
+        case['also'] = other
+    return case
 
 
 def config_and_open(case: dict):
@@ -123,6 +136,16 @@ def parse(conf, rec: dict, text: str):
 
 
 def check(case: dict) -> dict:
+    holder: dict = {}
+    first = _check(case, holder)
+    if case.get('also') and 'parsed' in holder:
+        second = _check({'route': case['route'], 'session': case['also']}, holder)
+        first['classes'] = list(first['classes']) + ['same-route-object-on-a-second-session', 'second:' + ('ebgp' if case['also']['local_as'] != case['also']['peer_as'] else 'ibgp')]
+        first['nontrivial'] = first['nontrivial'] or second['nontrivial']
+    return first
+
+
+def _check(case: dict, holder: dict) -> dict:
     from exabgp.bgp.message.update.collection import RoutedNLRI, UpdateCollection
 
     rec, sess = case['route'], case['session']
@@ -135,7 +158,7 @@ def check(case: dict) -> dict:
     text = textgen.route_text(rec)
     classes = [f'family:{rec["afi"]}/{rec["safi"]}', f'form:{rec["form"]}']
     try:
-        parsed = parse(conf, rec, text)
+        parsed = holder['parsed'] if 'parsed' in holder else parse(conf, rec, text)
     except Exception:  # noqa: BLE001 - an exception out of the parser is C18's subject
         return {'nontrivial': False, 'classes': classes + ['parse-exception']}
     if not parsed:
@@ -150,6 +173,7 @@ def check(case: dict) -> dict:
     if bool(neg.asn4) != asn4:
         raise RuntimeError('harness: asn4 negotiation differs from the session model (C07 decides that)')
 
+    holder['parsed'] = parsed
     route = parsed[0]
     self_mismatch = rec['nexthop'] == 'self' and ((rec['afi'] == 1) != (':' not in local_ip))
     try:
